@@ -104,8 +104,8 @@ func resolveNode returns (err)
     unfold forall x string :: SpecSAmt(elems(tm), 1.0, 1, x); unfold forall x string :: SpecSAmt(elems(tm), 1.0, 0, x)
     unfold forall x string :: SpecHas(elems(tm), 1, x); unfold forall x string :: SpecHas(elems(tm), 0, x)
   }
-  ghost after call 1 SumMerge { assert @lists-kept-recipe forall k string :: {db[k]} k in db ==> elems(db[k].Elements) == at(call, elems(db[k].Elements)); assert @inv-kept-recipe Inv(db) }
-  ghost after call 2 SumMerge { assert @lists-kept-basic forall k string :: {db[k]} k in db ==> elems(db[k].Elements) == at(call, elems(db[k].Elements)); assert @inv-kept-basic Inv(db) }
+  ghost after call 1 SumMerge { assert @lists-kept-recipe forall k string :: {db[k]} k in db ==> elems(db[k].Elements) == at(call, elems(db[k].Elements)); assert @recipe-wf WfDBI(db); assert @recipe-keys forall k string :: {db[k]} (k in db) == (k in B0dom); assert @recipe-denotes forall k string, x string :: {Dot(elems(db[k].Elements), len(db[k].Elements), x)} k in db ==> Dot(elems(db[k].Elements), len(db[k].Elements), x) == V(k, x); assert @recipe-ranks forall k string :: {db[k]} k in db ==> RankBelow(elems(db[k].Elements), len(db[k].Elements), rank(k)); assert @inv-kept-recipe Inv(db) }
+  ghost after call 2 SumMerge { assert @lists-kept-basic forall k string :: {db[k]} k in db ==> elems(db[k].Elements) == at(call, elems(db[k].Elements)); assert @basic-wf WfDBI(db); assert @basic-keys forall k string :: {db[k]} (k in db) == (k in B0dom); assert @basic-denotes forall k string, x string :: {Dot(elems(db[k].Elements), len(db[k].Elements), x)} k in db ==> Dot(elems(db[k].Elements), len(db[k].Elements), x) == V(k, x); assert @basic-ranks forall k string :: {db[k]} k in db ==> RankBelow(elems(db[k].Elements), len(db[k].Elements), rank(k)); assert @inv-kept-basic Inv(db) }
   ghost before call 1 Sort { let unsorted := elems(nel) }
   ghost after call 1 Sort {
     use PermAmtAll(unsorted, elems(nel), len(nel))
@@ -189,8 +189,8 @@ func (Resolver).resolveNode returns (err)
     unfold forall x string :: SpecSAmt(elems(tm), 1.0, 1, x); unfold forall x string :: SpecSAmt(elems(tm), 1.0, 0, x)
     unfold forall x string :: SpecHas(elems(tm), 1, x); unfold forall x string :: SpecHas(elems(tm), 0, x)
   }
-  ghost after call 1 SumMerge { assert @lists-kept-recipe forall k string :: {r.db[k]} k in r.db ==> elems(r.db[k].Elements) == at(call, elems(r.db[k].Elements)); assert @inv-kept-recipe Inv(r.db) }
-  ghost after call 2 SumMerge { assert @lists-kept-basic forall k string :: {r.db[k]} k in r.db ==> elems(r.db[k].Elements) == at(call, elems(r.db[k].Elements)); assert @inv-kept-basic Inv(r.db) }
+  ghost after call 1 SumMerge { assert @lists-kept-recipe forall k string :: {r.db[k]} k in r.db ==> elems(r.db[k].Elements) == at(call, elems(r.db[k].Elements)); assert @recipe-wf WfDBI(r.db); assert @recipe-keys forall k string :: {r.db[k]} (k in r.db) == (k in B0dom); assert @recipe-denotes forall k string, x string :: {Dot(elems(r.db[k].Elements), len(r.db[k].Elements), x)} k in r.db ==> Dot(elems(r.db[k].Elements), len(r.db[k].Elements), x) == V(k, x); assert @recipe-ranks forall k string :: {r.db[k]} k in r.db ==> RankBelow(elems(r.db[k].Elements), len(r.db[k].Elements), rank(k)); assert @inv-kept-recipe Inv(r.db) }
+  ghost after call 2 SumMerge { assert @lists-kept-basic forall k string :: {r.db[k]} k in r.db ==> elems(r.db[k].Elements) == at(call, elems(r.db[k].Elements)); assert @basic-wf WfDBI(r.db); assert @basic-keys forall k string :: {r.db[k]} (k in r.db) == (k in B0dom); assert @basic-denotes forall k string, x string :: {Dot(elems(r.db[k].Elements), len(r.db[k].Elements), x)} k in r.db ==> Dot(elems(r.db[k].Elements), len(r.db[k].Elements), x) == V(k, x); assert @basic-ranks forall k string :: {r.db[k]} k in r.db ==> RankBelow(elems(r.db[k].Elements), len(r.db[k].Elements), rank(k)); assert @inv-kept-basic Inv(r.db) }
   ghost before call 1 Sort { let unsorted := elems(nel) }
   ghost after call 1 Sort {
     use PermAmtAll(unsorted, elems(nel), len(nel))
@@ -217,4 +217,94 @@ func (Resolver).Resolve returns (err)
     invariant @done forall j int :: {#ord[j]} 0 <= j && j < #it ==> Res(r.db, #ord[j])
   }
   ghost before return 1 { use forall k string, x string :: LeafDot(elems(r.db[k].Elements), len(r.db[k].Elements), x) }
+
+// ---------------------------------------------------------------------------------------------
+// Arbitrary (possibly cyclic) books: resolution terminates, never crashes, and fails whenever the recipe
+// lies on a cycle. Bad is any set of recipes closed under "has an ingredient in Bad" (ghost witness widx:
+// the position of such an ingredient), i.e. recipes with an infinite reference chain. A recipe in Bad is
+// never rewritten, because resolving it always ends in the depth error.
+// ---------------------------------------------------------------------------------------------
+fun Bad(k string) bool
+fun widx(k string) int
+pred BadInv(db DBNodeMap) := forall k string :: {widx(k)} Bad(k) ==> k in db && 0 <= widx(k) && widx(k) < len(db[k].Elements) && Bad(db[k].Elements[widx(k)].Name)
+
+func resolveNode variant any standalone returns (err)
+  props C11 C08
+  ghost after call 1 SumMerge { assert @lists-kept-recipe forall k string :: {db[k]} k in db ==> elems(db[k].Elements) == at(call, elems(db[k].Elements)); assert @wf-kept-recipe WfDBI(db); assert @bad-kept-recipe badok ==> BadInv(db) }
+  ghost after call 2 SumMerge { assert @lists-kept-basic forall k string :: {db[k]} k in db ==> elems(db[k].Elements) == at(call, elems(db[k].Elements)); assert @wf-kept-basic WfDBI(db); assert @bad-kept-basic badok ==> BadInv(db) }
+  ghost after call 1 Sort { assert @lists-kept-sort forall k string :: {db[k]} k in db ==> elems(db[k].Elements) == at(call, elems(db[k].Elements)); assert @wf-kept-sort WfDBI(db); assert @bad-kept-sort badok ==> BadInv(db); assert @not-bad badok ==> !Bad(name) }
+  ghost before return 1 { assert @wf-final WfDBI(db); assert @bad-final badok ==> BadInv(db) }
+  requires @wf WfDBI(db) && 0 <= level
+  let badok := BadInv(db)
+  decreases maxDepth - level
+  modifies heap(DBNode)
+  ensures @wf WfDBI(db) && (badok ==> BadInv(db))
+  ensures @cyclic-fails [C11] badok && Bad(name) ==> err != nil
+  ensures @arrays forall a int :: {arrayat(Element, a)} a < old(alloc()) ==> arrayat(Element, a) == old(arrayat(Element, a))
+  ensures @fresh-or-same forall k string :: {db[k]} k in db ==> arr(db[k].Elements) == old(arr(db[k].Elements)) || fresh(arr(db[k].Elements))
+  calluse resolveNode#1 any
+  loop 1 {
+    pre { unfold Distinct(elems(nel), len(nel)) }
+    invariant @params db == old(db) && name == old(name) && maxDepth == old(maxDepth) && level == old(level) && level < maxDepth && name in db && node == db[name]
+    invariant @wf WfDBI(db) && (badok ==> BadInv(db))
+    invariant @arrays forall a int :: {arrayat(Element, a)} a < old(alloc()) ==> arrayat(Element, a) == old(arrayat(Element, a))
+    invariant @fresh-or-same forall k string :: {db[k]} k in db ==> arr(db[k].Elements) == old(arr(db[k].Elements)) || fresh(arr(db[k].Elements))
+    invariant @cur arr(#coll) < old(alloc()) && (badok && Bad(name) ==> widx(name) < len(#coll) && Bad(elems(#coll)[widx(name)].Name))
+    invariant @not-past-the-cycle badok && Bad(name) ==> #i <= widx(name)
+    invariant @nel-own arr(nel) >= old(alloc()) && arr(nel) < alloc() && arr(nel) != 0 && Distinct(elems(nel), len(nel)) && (forall k string :: {db[k]} k in db ==> arr(db[k].Elements) != arr(nel))
+  }
+
+func Resolve variant any standalone returns (out, err)
+  props C11 C08
+  requires @wf WfDBI(db)
+  let badok := BadInv(db)
+  modifies heap(DBNode)
+  ensures @wf WfDBI(db) && out == db && mapval(db) == old(mapval(db))
+  ensures @cyclic-fails [C11] badok && (exists k string :: Bad(k)) ==> err != nil
+  calluse resolveNode#1 any
+  loop 1 {
+    invariant @wf WfDBI(db) && (badok ==> BadInv(db)) && db == old(db) && c == old(c)
+    invariant @no-bad-yet badok ==> (forall j int :: {#ord[j]} 0 <= j && j < #it ==> !Bad(#ord[j]))
+  }
+
+// the same for the deprecated struct API
+func (Resolver).resolveNode variant any standalone returns (err)
+  props C11 C08
+  ghost after call 1 SumMerge { assert @lists-kept-recipe forall k string :: {r.db[k]} k in r.db ==> elems(r.db[k].Elements) == at(call, elems(r.db[k].Elements)); assert @wf-kept-recipe WfDBI(r.db); assert @bad-kept-recipe badok ==> BadInv(r.db) }
+  ghost after call 2 SumMerge { assert @lists-kept-basic forall k string :: {r.db[k]} k in r.db ==> elems(r.db[k].Elements) == at(call, elems(r.db[k].Elements)); assert @wf-kept-basic WfDBI(r.db); assert @bad-kept-basic badok ==> BadInv(r.db) }
+  ghost after call 1 Sort { assert @lists-kept-sort forall k string :: {r.db[k]} k in r.db ==> elems(r.db[k].Elements) == at(call, elems(r.db[k].Elements)); assert @wf-kept-sort WfDBI(r.db); assert @bad-kept-sort badok ==> BadInv(r.db); assert @not-bad badok ==> !Bad(name) }
+  ghost before return 1 { assert @wf-final WfDBI(r.db); assert @bad-final badok ==> BadInv(r.db) }
+  requires @wf WfDBI(r.db) && 0 <= level
+  let badok := BadInv(r.db)
+  decreases r.config.MaxDepth - level
+  modifies heap(DBNode)
+  ensures @wf WfDBI(r.db) && (badok ==> BadInv(r.db))
+  ensures @cyclic-fails [C11] badok && Bad(name) ==> err != nil
+  ensures @arrays forall a int :: {arrayat(Element, a)} a < old(alloc()) ==> arrayat(Element, a) == old(arrayat(Element, a))
+  ensures @fresh-or-same forall k string :: {r.db[k]} k in r.db ==> arr(r.db[k].Elements) == old(arr(r.db[k].Elements)) || fresh(arr(r.db[k].Elements))
+  calluse resolveNode#1 any
+  loop 1 {
+    pre { unfold Distinct(elems(nel), len(nel)) }
+    invariant @params r == old(r) && name == old(name) && level == old(level) && level < r.config.MaxDepth && name in r.db && node == r.db[name]
+    invariant @wf WfDBI(r.db) && (badok ==> BadInv(r.db))
+    invariant @arrays forall a int :: {arrayat(Element, a)} a < old(alloc()) ==> arrayat(Element, a) == old(arrayat(Element, a))
+    invariant @fresh-or-same forall k string :: {r.db[k]} k in r.db ==> arr(r.db[k].Elements) == old(arr(r.db[k].Elements)) || fresh(arr(r.db[k].Elements))
+    invariant @cur arr(#coll) < old(alloc()) && (badok && Bad(name) ==> widx(name) < len(#coll) && Bad(elems(#coll)[widx(name)].Name))
+    invariant @not-past-the-cycle badok && Bad(name) ==> #i <= widx(name)
+    invariant @nel-own arr(nel) >= old(alloc()) && arr(nel) < alloc() && arr(nel) != 0 && Distinct(elems(nel), len(nel)) && (forall k string :: {r.db[k]} k in r.db ==> arr(r.db[k].Elements) != arr(nel))
+  }
+
+func (Resolver).Resolve variant any standalone returns (err)
+  props C11 C08
+  requires @wf WfDBI(r.db)
+  let badok := BadInv(r.db)
+  modifies heap(DBNode)
+  ensures @wf WfDBI(r.db) && mapval(r.db) == old(mapval(r.db))
+  ensures @cyclic-fails [C11] badok && (exists k string :: Bad(k)) ==> err != nil
+  calluse resolveNode#1 any
+  loop 1 {
+    invariant @wf WfDBI(r.db) && (badok ==> BadInv(r.db)) && r == old(r)
+    invariant @no-bad-yet badok ==> (forall j int :: {#ord[j]} 0 <= j && j < #it ==> !Bad(#ord[j]))
+  }
+
 @*/
